@@ -1,8 +1,9 @@
 """C28 — commands: pool automaton + real scheduler runs with the command."""
 from vp.sched.stream import SchedStream
 from vp.props.c01 import TRUSTED, ASSUMES  # noqa
+from vp.sched import corpora
 
-STREAMS = [SchedStream('C28', name='sched-trigger', feat={'trigger': True, 'hold': True, 'queues': True}, n_quick=32, n_thorough=700)]
+STREAMS = [SchedStream('C28', name='sched-trigger', feat={'trigger': True, 'hold': True, 'queues': True}, n_quick=32, n_thorough=700, corpus=corpora.c28_corpus())]
 META = {
     "level_text": "Partial. Coq theorems: a member not itself force-started is submitted only when every prerequisite atom is pre-initial, force-satisfied (off-group) or really completed earlier (in-group order); force-satisfaction touches only the member's own prerequisites; only manually triggered tasks override holds and queue limits; no duplicate submissions. Tie: real runs with cylc trigger on generated groups (pooled, live, finished and unspawned members, held members, limited queues) accepted by the automaton. 'Each member runs exactly once more' and 'a live group-start member is left to finish' are decided per scenario by the oracle, not by a theorem.",
     "level_note": TRUSTED[0] + " Commands use --flow=all only; new/none flows are not generated.",
